@@ -395,6 +395,27 @@ func (w *lw) afterCrash(op h.Op) {
 	}
 	m := w.model
 	m.FaultPendingPurges()
+	// An interrupted write may have reached storage with a deleteWith on an item
+	// that has expired unobserved: the restart purges that item and, through the
+	// new item, everything that hangs on the written id - or the write did not
+	// get that far.  What hangs on such an id is open.
+	for ln, ids := range named {
+		for _, id := range ids {
+			nit := newM.Loc(ln).Items[id]
+			if nit == nil {
+				continue
+			}
+			xs, _ := nit.Body["deleteWith"].([]interface{})
+			for _, x := range xs {
+				if sname, ok := x.(string); ok && (m.Pending[ln][sname] || m.IsUncertain(ln, sname)) {
+					for d := range m.Dependents(m.Loc(ln), id) {
+						m.MarkFault(ln, d)
+					}
+					break
+				}
+			}
+		}
+	}
 	gone := map[string]bool{}   // ids (of op.Loc) found in their new, absent state
 	stayed := map[string]bool{} // ids (of op.Loc) found in their old, present state
 	for ln, ids := range named {
